@@ -359,6 +359,73 @@ def check_ref_trees(case, ctx, sink):
         ctx.sample({'formula': d[key], 'expected': exp[key][0]})
 
 
+def _leaves(t, out=None, under_add=False):
+    """[(leaf rect, lies below a ':' node)]"""
+    out = [] if out is None else out
+    if t[0] == 'leaf':
+        out.append((t[1], under_add))
+    else:
+        _leaves(t[1], out, under_add or t[0] == 'add')
+        _leaves(t[2], out, under_add or t[0] == 'add')
+    return out
+
+
+def check_ref_pairs(case, ctx, sink):
+    """case: {'n','base','variant','pairs':[[tree, leaf index, leaf first?]]}:
+    one formula holding a nested reference expression *and* one of its own
+    leaves as a second, plain argument: =SUM(tree)+SUM(leaf).  The values of
+    the shared area must reach both arguments."""
+    import formulas
+    sink.case = case
+    n, base = case['n'], case['base']
+    cells = _cells_for_model(n, base, case.get('variant', 0), False)
+    d = {_key(s_, c, r): v for (s_, c, r), v in cells.items()}
+    exp = {}
+
+    def total(areas):
+        return sum(v for ar in areas for cell in rr.cells(ar)
+                   for v in [cells.get(cell)] if isinstance(v, float))
+    for j, (t, li, first) in enumerate(case['pairs']):
+        areas = _tree_areas(t)
+        leaves = _leaves(t)
+        if areas is None or li >= len(leaves):
+            continue
+        leaf, under_add = leaves[li]
+        # the same area may occur again elsewhere in the expression
+        under_add = under_add or any(ua for l2, ua in leaves if l2 == leaf)
+        la = [('S1',) + tuple(leaf[1:])]
+        a, b = 'SUM(%s)' % _tree_text(t), 'SUM(%s)' % _qual('S1', leaf)
+        key = '%s%d' % (rr.col_name(n + 3), j + 1)
+        d[key] = '=%s+%s' % ((b, a) if first else (a, b))
+        exp[key] = (total(areas) + total(la), t, under_add, first)
+    try:
+        sol = formulas.ExcelModel().from_dict(d).calculate()
+    except Exception as ex:
+        if len(case['pairs']) > 1:
+            for pr in case['pairs']:
+                check_ref_pairs(dict(case, pairs=[pr]), ctx, sink)
+            return
+        ctx.violation('pair:model-raised:%s' % type(ex).__name__, {
+            'case': case, 'observed': repr(ex)[:300], 'accepted': ['a model']})
+        return
+    for key, (want, t, under_add, first) in exp.items():
+        ctx.count('monitor.pair')
+        ctx.case((d[key], case.get('variant', 0)))
+        try:
+            got = xl.canon(xl.scalar(sol[key.upper()]))
+        except KeyError:
+            got = ('foreign', 'missing from solution')
+        if got != xl.c_num(want):
+            ctx.violation('pair:%s:%s' % (
+                'leaf-of-range-operator' if under_add else 'leaf',
+                'leaf-first' if first else 'leaf-last'), {
+                'case': dict(case, pairs=[pr for pr in case['pairs'] if pr[0] == t][:1]),
+                'formula': d[key], 'shared_leaf_is_operand_of_range_operator': under_add,
+                'observed': xl.show(got), 'accepted': [repr(want)]})
+    if exp:
+        ctx.sample({'formula': d[key], 'expected': exp[key][0]})
+
+
 def _tree_shape(t):
     if t[0] == 'leaf':
         return '.'
@@ -400,6 +467,8 @@ def check_case(case, ctx):
         check_formulas(case, ctx, s)
     elif case['kind'] == 'trees':
         check_ref_trees(case, ctx, s)
+    elif case['kind'] == 'pairs':
+        check_ref_pairs(case, ctx, s)
 
 
 def _rand_rect(rng, n, sheet=''):
@@ -477,6 +546,10 @@ def run(spec, ctx):
             case = {'kind': 'trees', 'n': n, 'base': 3, 'variant': mi % 4, 'trees': trees}
             ctx.open_case({'kind': 'trees', 'model': mi})
             check_ref_trees(case, ctx, s)
+            pairs = [[t, rng.randrange(4), rng.random() < 0.5] for t in trees[:20]]
+            case = {'kind': 'pairs', 'n': n, 'base': 3, 'variant': mi % 4, 'pairs': pairs}
+            ctx.open_case({'kind': 'pairs', 'model': mi})
+            check_ref_pairs(case, ctx, s)
     elif k == 'formula':
         n = spec['n']
         rects = _grid_rects(n)
@@ -510,7 +583,7 @@ def finalize(agg, tier):
                      ('contract.add', 5000), ('contract.sub', 5000),
                      ('contract.simplify', 5000), ('contract.value', 5000),
                      ('monitor.formula', 500), ('monitor.add-values', 2000),
-                     ('monitor.tree', 1000)):
+                     ('monitor.tree', 1000), ('monitor.pair', 300)):
         if c.get(k, 0) < floor:
             inc.append('monitor %s saw %d events (< %d)' % (k, c.get(k, 0), floor))
     rel = set(agg['sets'].get('relation', ()))
